@@ -5,6 +5,8 @@ CONSTANTS
   RFroms = {"exact", "stranger"}
   Types = {"result"}
   OpenKinds = {"plain", "smr", "resumed"}
+  Cids = {"fresh", "empty", "dup"}
+  IdRule = "replace"
   MaxHist = 5
 CONSTRAINT Bound
 ACTION_CONSTRAINT EmitBehaviour
